@@ -15,8 +15,8 @@ from .rules.dictops import DictInterp, _Unknown, _Ret, _Pair
 
 
 class AObj:
-    def __init__(self, cls, dd, flag=None):
-        self.cls, self.dd, self.flag = cls, dd, flag
+    def __init__(self, cls, dd, flag=None, leaf=False):
+        self.cls, self.dd, self.flag, self.leaf = cls, dd, flag, leaf
 
     def __repr__(self):
         return "%s%s" % (self.cls, show_dict(self.dd))
@@ -185,6 +185,16 @@ class OpInterp(DictInterp):
                 return r if isinstance(t.ops[0], (ast.Eq, ast.Is)) else not r
         if isinstance(t, ast.Constant) and isinstance(t.value, bool):
             return t.value
+        if isinstance(t, ast.Attribute) and t.attr == "_is_leaf":
+            return self.ev(t, env)
+        if isinstance(t, ast.Call) and call_name(t) == "get_is_leaf" and isinstance(t.func, ast.Attribute) and not t.args:
+            o = self.ev(t.func.value, env)
+            if isinstance(o, AObj):
+                return bool(getattr(o, "leaf", False))
+        if isinstance(t, ast.BoolOp) and all(isinstance(v, ast.Attribute) and v.attr == "_is_leaf" or
+                                             (isinstance(v, ast.Call) and call_name(v) == "get_is_leaf") for v in t.values):
+            vals = [self.truth(v, env) for v in t.values]
+            return all(vals) if isinstance(t.op, ast.And) else any(vals)
         return super().truth(t, env)
 
     @staticmethod
@@ -246,6 +256,11 @@ class OpInterp(DictInterp):
                 if isinstance(o, AObj):
                     return o.dd
                 raise Raised("AttributeError", "%s has no decomposition_dict" % self.kind_of(o))
+            if e.attr == "_is_leaf":
+                o = self.ev(e.value, env)
+                if isinstance(o, AObj):
+                    return bool(getattr(o, "leaf", False))
+                raise Raised("AttributeError", "%s has no _is_leaf" % self.kind_of(o))
             if e.attr == "reuse_gradient":
                 o = self.ev(e.value, env)
                 if isinstance(o, AObj) and o.flag is not None:
